@@ -359,8 +359,12 @@ def badSubgroupInvariants (fg : FG.FundGroup) (index : Nat) (expected : List Nat
   let rec go : List (Outcome Table) → Outcome Bool
     | [] => .ok false
     | .ok t :: rest =>
-      (match D3.stabilizerInvariants fg.relators t with
-       | .ok inv => if inv ≠ expected then .ok true else go rest
+      (match D3.tabOf t with
+       | .ok tab =>
+         (match D3.stabilizerInvariants fg.genToEdge.length fg.relators tab with
+          | .ok inv => if inv ≠ expected then .ok true else go rest
+          | .err => .err
+          | .panic => .panic)
        | .err => .err
        | .panic => .panic)
     | .err :: _ => .err
